@@ -110,6 +110,9 @@ type Unit struct {
 	closures     map[*Term]*closureVal
 	needStrOrder bool
 	logsUsed     bool
+	ifaceNilDone bool
+	dcBound      *Term // allocation counter when the current DeepCopy started
+	wantsSent    bool // some postcondition talks about logsent(k): snapshot objects sent by API writes
 	ifaceStatic  map[int]types.Type // interface value term -> static type it was made from
 	entryEnv     *SpecEnv
 	args, fvs    []*SV
@@ -325,7 +328,8 @@ func (u *Unit) eventArr(ev *havocEvent, key string, prev *Term) *Term {
 	isMapKey := strings.HasPrefix(key, "MD:") || strings.HasPrefix(key, "MV:") || strings.HasPrefix(key, "ML:")
 	if isMapKey {
 		for _, m := range ev.frame.Maps {
-			conds = append(conds, c.Neq(r, m))
+			// the nil map never changes (writing it panics), even when a frame names a map that happens to be nil
+			conds = append(conds, c.Or(c.Eq(r, c.Nil()), c.Neq(r, m)))
 		}
 	} else {
 		for _, root := range ev.frame.Roots {
